@@ -348,6 +348,7 @@ func init() {
 			cl := hjp("cmd/thruserv", "C14.connlimiter", "H_C14_connlimiter", "connLimiter one-step induction")
 			tb := hjp("cmd/thruserv", "C14.bucket", "H_C14_bucket", "tokenBucket one-step induction (floating point)")
 			tb.OneShot = true
+			tb.FixedClock = true
 			tb.TimeoutMs = 120000
 			bb := hjp("cmd/thruserv", "C14.bucket-burst", "H_C14_bucket_burst", "burst admissions with a fixed clock")
 			bb.FixedClock = true
